@@ -1,6 +1,7 @@
 package main
 
 import (
+	"sort"
 	"fmt"
 	"go/ast"
 	"go/token"
@@ -41,6 +42,13 @@ func (e *Engine) VerifyFunction(fn *ssa.Function) (res *FuncResult) {
 	}()
 	if len(fn.Blocks) == 0 {
 		res.Unsupported = append(res.Unsupported, "no body")
+		return res
+	}
+	if ct != nil && ct.Flags["trusted"] {
+		// the clauses of a trusted contract are assumptions; its structural clauses are still checked on the code
+		for _, dir := range ct.Structure {
+			res.Obligations = append(res.Obligations, e.structural(fn, dir))
+		}
 		return res
 	}
 	if ct != nil && ct.Flags["wrap64"] {
@@ -619,6 +627,43 @@ func (e *Engine) structural(fn *ssa.Function, dir string) *Obligation {
 		if hasMeasure {
 			o.Detail = "only direct recursion, under the decreases measure checked at the recursive call"
 		}
+	case len(f) >= 1 && f[0] == "uses-only-globals":
+		// `structure uses-only-globals a,b,c`: the function (and the closures it creates) mentions no package-level
+		// variable of its own package other than the listed ones — in particular no new shared registry, pool or cache
+		allowed := map[string]bool{}
+		for _, part := range f[1:] {
+			for _, n := range strings.Split(part, ",") {
+				if n = strings.TrimSpace(n); n != "" {
+					allowed[n] = true
+				}
+			}
+		}
+		var bad []string
+		seenG := map[string]bool{}
+		var scan func(g *ssa.Function)
+		scan = func(g *ssa.Function) {
+			for _, b := range g.Blocks {
+				for _, in := range b.Instrs {
+					for _, op := range in.Operands(nil) {
+						if gl, ok := (*op).(*ssa.Global); ok && gl.Pkg == fn.Pkg && !allowed[gl.Name()] && !seenG[gl.Name()] && !strings.HasPrefix(gl.Name(), "init$") {
+							seenG[gl.Name()] = true
+							bad = append(bad, gl.Name())
+						}
+					}
+				}
+			}
+			for _, a := range g.AnonFuncs {
+				scan(a)
+			}
+		}
+		scan(fn)
+		if len(bad) > 0 {
+			sort.Strings(bad)
+			o.Detail = "uses package-level variable(s) not listed in the contract: " + strings.Join(bad, ", ")
+			return o
+		}
+		o.Status = "proved"
+		o.Detail = "mentions only the listed package-level variables"
 	case len(f) == 2 && f[0] == "grows-only":
 		// `structure grows-only T.f`: the set held in field f of T only ever grows — in the whole package no function
 		// deletes from a map read from that field, and the field itself is assigned only a freshly made (empty) map.
